@@ -10,18 +10,21 @@ META = {
     "text": ("Lean theorems Hv.C18.summon_mutex (when every entrant counts itself atomically with the lookup and the decrement deletes at "
              "zero atomically, no schedule of any number of summoners, give-ups, cancelled contexts and close callbacks has two live "
              "instances; the mapped instance is the live one; at most one summoner is inside the critical section), refutes_current / "
-             "witness_two_live (closed witness for waiter-only counting: the owner's decrement drops the slot under a waiter, a third "
-             "summoner gets a fresh slot, two creations); classify_sound ties the decision to 7 facts from hydra.go; the model is run "
+             "witness_two_live / refutes_staleCallback (closed witnesses for waiter-only counting and for the by-name close callback: the owner's decrement drops the slot under a waiter, a third "
+             "summoner gets a fresh slot, two creations); classify_sound ties the decision to 7 facts (with recognisers for the counted lookup, the atomic release and the comparing callback) from hydra.go; the model is run "
              "against the real hydra: concurrent SummonSwamp goroutines stopped at the summon hooks, live instances counted by hooks in "
              "swamp.New / sendClosedEvent."),
     "note": ("Trusted: Lean kernel; extract/c18.go; harness/c18.go + rig + app/verifhook + hydra.Verif* accessors; sync.Map operations are "
              "atomic; the wait loop and the ready flip run under the slot's mutex (no lost wake-up there: check and Wait are under the lock "
-             "the broadcaster holds); an instance's close callback runs once; a closing-but-still-mapped instance (the 30 s wait) is "
+             "the broadcaster holds); an instance's close callback may run again after it is gone (Destroy after Close — modelled as staleCallback); a closing-but-still-mapped instance (the 30 s wait) is "
              "abstracted to 'the summoner stays inside'; the correspondence keeps at most one waiter per slot so that wake-ups are not a race."),
     "design_ref": "§8 C18, Appendix E (summon)",
 }
 
 FINDINGS = {
+    "C18-stale-callback-unmaps-live-instance": "the close callback is swamps.Delete(name): a second callback of an already closed instance "
+                                               "(Destroy() on a stale handle after Close()) removes the map entry of the live successor; the "
+                                               "next summoner constructs another instance next to it",
     "C18-slot-dropped-while-in-use": "SummonSwamp deletes the wait slot while a waiter still uses it (only waiters are counted, everybody "
                                      "decrements): two summoners end up inside the critical section on different slots and both create the swamp",
 }
@@ -47,7 +50,7 @@ def run(ctx):
     corrs = []
     if K.build_hx(ctx) and K.build_drv(ctx):
         rc = "yes" if (facts.get("everyEntrantCounts") == "yes" and facts.get("decDeleteAtomic") == "yes") else "no"
-        args = ["refCounted=" + rc]
+        args = ["refCounted=" + rc, "callbackCompares=" + facts.get("callbackCompares", "unknown")]
         c = K.correspondence(ctx, "C18", args)
         corrs.append(("C18", args, c))
     else:
@@ -94,8 +97,8 @@ def run(ctx):
         twolive_cases += 1 if two else 0
     return K.finish(
         ctx, "proof",
-        rule=("cases = 3 corpus cases (the Lean witness; a lone summoner whose slot count goes to -1 and is never deleted; a waiter served the "
-              "stored instance, close, re-summon) followed by random schedules of go T / cancel T / close over 2..4 summoners (6..31 ops "
+        rule=("cases = 4 corpus cases (the two Lean witnesses: dropped slot, stale close callback; a lone summoner whose slot count goes to -1 and is never deleted; a waiter served the "
+              "stored instance, close, re-summon) followed by random schedules of go T / cancel T / close / closeold K / destroyold K over 2..4 summoners (6..31 ops "
               "quick, ..55 thorough); non-trivial = at least 3 ops; distinct = distinct op texts; each reply (protocol step reached, live "
               "instance count, whether an instance is mapped, which slot is mapped, every slot's ready flag and count — all observed) is "
               "compared between the real hydra and the Lean model"),
